@@ -567,7 +567,7 @@ fn try_split_range(text: &str, glyph_map: &GlyphMap) -> Result<Node, String> {
     {
         let (head, tail) = text.split_at(idx);
         if glyph_map.contains(head)
-            && glyph_map.contains(tail.trim_start_matches('-'))
+            && glyph_map.contains(&tail[1..])
             && let Some(prev_idx) = solution.replace(idx)
         {
             let (head1, tail1) = text.split_at(prev_idx);
@@ -592,7 +592,7 @@ fn try_split_range(text: &str, glyph_map: &GlyphMap) -> Result<Node, String> {
             let (head, tail) = text.split_at(idx);
             builder.token(Kind::GlyphName, head);
             builder.token(Kind::Hyphen, "-");
-            builder.token(Kind::GlyphName, tail.trim_start_matches('-'));
+            builder.token(Kind::GlyphName, &tail[1..]);
             builder.finish_node(false, None);
             builder.finish()
         })
